@@ -24,8 +24,18 @@ def run_kani(harness_rs, module_file, harnesses, timeout=600, unwind=None, extra
         open(os.path.join(os.path.dirname(mf), 'verif_harness.rs'), 'w').write((open(SUPPORT).read() if support else '#![allow(dead_code, unused_imports)]') + '\n' + harness_rs)
         env = dict(os.environ, CARGO_NET_OFFLINE='true', CARGO_TARGET_DIR=os.path.join(build.CACHE, 'tgt-kani'))
         env.pop('RUSTUP_TOOLCHAIN', None)
+        import hashlib
+        cdir = os.path.join(build.CACHE, 'kani-results'); os.makedirs(cdir, exist_ok=True)
+        sup_txt = open(SUPPORT).read() if support else ''
         for h in harnesses:
             t0 = time.time()
+            # a harness that passed on exactly this tree (content hash of src/**, Cargo.toml, Cargo.lock) with exactly this harness text is not model-checked again:
+            # the 20 checks of one run share their Kani leaves.  Only SUCCESSFUL verdicts are re-used; anything else is always re-run.
+            ck = os.path.join(cdir, hashlib.sha256((build.tree_hash('kani') + h + harness_rs + sup_txt + module_file).encode()).hexdigest()[:24] + '.json')
+            if os.path.exists(ck) and not os.environ.get('VF_NO_KANI_CACHE'):
+                try:
+                    r = json.load(open(ck)); r['cached_from_same_tree'] = True; out.append(r); os.utime(ck); continue
+                except Exception: pass
             cmd = ['cargo', 'kani', '-Z', 'stubbing', '--harness', h, '--exact', '--output-format', 'terse', '--no-memory-safety-checks'] if False else \
                   ['cargo', 'kani', '-Z', 'stubbing', '--harness', h, '--exact', '--output-format', 'terse']
             try:
@@ -39,6 +49,8 @@ def run_kani(harness_rs, module_file, harnesses, timeout=600, unwind=None, extra
                 txt = (e.stdout or b'').decode(errors='replace') if isinstance(e.stdout, bytes) else (e.stdout or ''); status = 'TIMEOUT'
             failed = re.findall(r'Failed Checks: (.*)', txt)
             out.append({'harness': h, 'status': status, 'time_s': round(time.time() - t0, 1), 'failed_checks': failed[:10], 'log_tail': ('\n'.join(l for l in txt.split('\n') if l.startswith('error') or '-->' in l)[:1500] + txt[-1500:])})
+            if status == 'SUCCESSFUL':
+                json.dump(out[-1], open(ck + '.tmp%d' % os.getpid(), 'w')); os.replace(ck + '.tmp%d' % os.getpid(), ck); build._prune(cdir, keep=80)
     finally:
         shutil.rmtree(scratch, ignore_errors=True)
     return out
@@ -48,7 +60,7 @@ def report(ses, results, what, prop_violation_text, replay_recipe=None):
     """turn Kani results into obligations / violations / undecided entries of the session"""
     for r in results:
         ses.queries.append({'name': 'kani harness %s (%s)' % (r['harness'], what), 'verdict': 'unsat' if r['status'] == 'SUCCESSFUL' else ('sat' if r['status'] == 'FAILED' else 'unknown'),
-                            'expected': 'unsat', 'solver': 'kani 0.68 / cbmc 6.11 / cadical', 'agree': [], 'time_s': r['time_s'], 'lemma_instances': 0, 'per_solver': {}})
+                            'expected': 'unsat', 'solver': 'kani 0.68 / cbmc 6.11 / cadical', 'agree': [], 'time_s': r['time_s'], 'lemma_instances': 0, 'per_solver': {}, 'reused_verdict_for_identical_tree': bool(r.get('cached_from_same_tree'))})
         if r['status'] == 'SUCCESSFUL': continue
         unwinding = any('unwinding assertion' in f or 'unwinding value' in f for f in r['failed_checks']) or 'unwinding value' in r['log_tail']
         unsupported = 'not currently supported by Kani' in r['log_tail'] or any('not currently supported' in f for f in r['failed_checks'])
@@ -251,14 +263,15 @@ k3!(k3_footer1_seg3, 1, 3);
 k3!(k3_footer2_seg3, 2, 3);
 k3!(k3_footer0_seg0, 0, 0);
 k3!(k3_footer0_seg1, 0, 1);
+k3!(k3_footer1_seg0, 1, 0);
 '''
 
 
 def job_footer_compare(ses):
-    hs = ['core::verif_harness::k3_footer1_seg2', 'core::verif_harness::k3_footer1_seg1', 'core::verif_harness::k3_footer1_seg3', 'core::verif_harness::k3_footer0_seg0', 'core::verif_harness::k3_footer0_seg1']
+    hs = ['core::verif_harness::k3_footer1_seg2', 'core::verif_harness::k3_footer1_seg1', 'core::verif_harness::k3_footer1_seg3', 'core::verif_harness::k3_footer0_seg0', 'core::verif_harness::k3_footer0_seg1', 'core::verif_harness::k3_footer1_seg0']
     if ses.tier == 'thorough': hs.append('core::verif_harness::k3_footer2_seg3')
     res = run_kani(K3, 'src/core/mod.rs', hs, timeout=900, support=True)
-    report(ses, res, 'Footer::constant_time_equals(segment) == (base64url(footer) == segment) for footers of 0-1 (2) ASCII bytes and segments of 0-3 ASCII bytes, on the compiled code with the real base64 crate',
+    report(ses, res, 'Footer::constant_time_equals(segment) == (base64url(footer) == segment) for footers of 0-1 (2) ASCII bytes and segments of 0-3 ASCII bytes, without panic, on the compiled code with the real base64 crate',
            'the footer comparison accepts a segment that is not the base64url encoding of the expected footer (or rejects the right one)',
            replay_recipe={'kind': 'footer_compare'})
     ses.bounds['kani k3_footer_compare'] = 'footer 0-1 bytes (2 in thorough), segment 0-3 bytes, ASCII, unwind 12'
